@@ -111,6 +111,7 @@ var pubs [][]byte
 var pubRaw [][4]*string // oracle: unformatted address per driver (nil = panics)
 var sigTxs []*types.Transaction
 var sigInfo [][2]int64 // crypto type id, verifies (0/1)
+var sigFrom [][2]int   // address id of the sign type, public key number
 
 var errAddrType error
 
@@ -293,6 +294,16 @@ func setup() {
 			}
 		}
 		sigInfo = append(sigInfo, [2]int64{cid, okv})
+		pk := -1
+		for i, p := range pubs {
+			if bytes.Equal(p, tx.Signature.Pubkey) {
+				pk = i
+			}
+		}
+		if pk < 0 {
+			panic("signer key missing from the public key alphabet")
+		}
+		sigFrom = append(sigFrom, [2]int{int(tx.Signature.Ty>>12) & 7, pk})
 	}
 }
 
@@ -378,12 +389,15 @@ func runOp(o Op) (res answer) {
 		return answer{"err", classify(drivers.CheckAddress(chainCfg, addrs[o.A], o.H))}
 	case "pub":
 		cryptocli.SetCurrentBlock(o.H, 0)
-		if o.ViaTx && o.D >= 0 && o.D <= 7 {
+		if viaFrom(o) {
 			tx := &types.Transaction{Signature: &types.Signature{Ty: int32(o.D)<<12 | types.SECP256K1, Pubkey: pubs[o.A]}}
 			return answer{"str", tx.From()}
 		}
 		return answer{"str", address.PubKeyToAddr(int32(o.D), pubs[o.A])}
 	case "sign":
+		// since 909acb0 checkSign derives the sender address (through the driver's cache,
+		// formatted at the crypto context's height): pin the context to the call's height
+		cryptocli.SetCurrentBlock(o.H, 0)
 		return answer{"bool", hlib.Bool(sigTxs[o.A].CheckSign(o.H))}
 	}
 	panic("unknown op " + o.K)
@@ -396,12 +410,18 @@ func opCoq(o Op) string {
 	case "dapp":
 		return hlib.App("ODapp", hlib.N(uint64(o.A)), hlib.Z(o.H))
 	case "pub":
+		if viaFrom(o) {
+			return hlib.App("OFrom", hlib.N(uint64(o.D)), hlib.N(uint64(o.A)), hlib.Z(o.H))
+		}
 		return hlib.App("OPub", hlib.Z(int64(o.D)), hlib.N(uint64(o.A)), hlib.Z(o.H))
 	}
 	return hlib.App("OSign", hlib.N(uint64(o.A)), hlib.Z(o.H))
 }
 
-func opKey(o Op) string { return fmt.Sprintf("%s/%d/%d/%d", o.K, o.A, o.D, o.H) }
+func opKey(o Op) string { return fmt.Sprintf("%s/%d/%d/%d/%v", o.K, o.A, o.D, o.H, viaFrom(o)) }
+
+// viaFrom: the conversion goes through Transaction.From() (address id in the sign type)
+func viaFrom(o Op) bool { return o.K == "pub" && o.ViaTx && o.D >= 0 && o.D <= 7 }
 
 // ---------- fresh OS process ----------
 
@@ -544,6 +564,12 @@ func (cr *caseRun) emit(out *hlib.Out) {
 			}
 		case "sign":
 			usedS[o.A] = true
+			usedP[sigFrom[o.A]] = true
+			k := fmt.Sprintf("p%d/%d", sigFrom[o.A][0], sigFrom[o.A][1])
+			keys[k]++
+			if keys[k] > 1 {
+				nontrivial = true
+			}
 		}
 	}
 	var drv, val, ex, raw, cry, sigs, obs []string
@@ -575,7 +601,8 @@ func (cr *caseRun) emit(out *hlib.Out) {
 	cry = append(cry, hlib.App("CR", hlib.N(uint64(types.ED25519)), hlib.Bool(c.Ed[0] != 0), hlib.Z(c.Ed[1])))
 	for s := range sigTxs {
 		if usedS[s] {
-			sigs = append(sigs, hlib.App("SG", hlib.N(uint64(s)), hlib.N(uint64(sigInfo[s][0])), hlib.Bool(sigInfo[s][1] != 0)))
+			sigs = append(sigs, hlib.App("SG", hlib.N(uint64(s)), hlib.N(uint64(sigInfo[s][0])), hlib.Bool(sigInfo[s][1] != 0),
+				hlib.N(uint64(sigFrom[s][0])), hlib.N(uint64(sigFrom[s][1]))))
 		}
 	}
 	type implOb struct {
@@ -731,7 +758,17 @@ func genOps(r *hlib.Rng, c Cfg, level int, n int) []Op {
 			}
 			ops = append(ops, o)
 		default:
-			ops = append(ops, Op{K: "sign", A: r.Intn(len(sigTxs)), H: hlib.Pick(r, hs)})
+			o := Op{K: "sign", A: r.Intn(len(sigTxs)), H: hlib.Pick(r, hs)}
+			if level >= 1 {
+				// checkSign converts the signer's key through the address driver's cache (909acb0)
+				pk := sigFrom[o.A][1]
+				side := !c.API || isFork(o.H, c.FFmt)
+				if pubSideSet[pk] && pubSide[pk] != side {
+					continue
+				}
+				pubSide[pk], pubSideSet[pk] = side, true
+			}
+			ops = append(ops, o)
 		}
 	}
 	if len(ops) == 0 {
